@@ -11,7 +11,9 @@ vars    = - | classdef;classdef;…                 the base system's variables,
 classdef= name:vt:default:entity:defperiod:end:setinput:formulas     "-" = not declared
 formulas= - | ord>n,ord>n,…                       start date (ordinal) > function id, class order
 ops     = - | op|op|…
-op      = C!src | R!src!mods | M!tgt!mod          src / tgt = index of a system (0 = base)
+op      = C!src | R!src!mods | M!tgt!mod | T!src!reforms!exts     src / tgt = index of a system (0 = base)
+          T = test_runner._get_tax_benefit_system(src, reforms, extensions): a new system unless cached
+reforms = - | path$mods%path$mods…                 exts = - | name$vars$params%…  (vars / params as above)
 mods    = - | mod&mod&…
 mod     = add~classdef | upd~classdef | rep~classdef | neu~name | ann~name | par~pu+pu+…
 pu      = name@a@b@val                            b = "-" for an open-ended update
@@ -77,19 +79,6 @@ def parseMod? (s : String) : Option Mod :=
   | ["par", us] => (allSome ((us.splitOn "+").map parsePUpd?)).map Mod.params
   | _ => none
 
-def parseOp? (s : String) : Option Op :=
-  match s.splitOn "!" with
-  | ["C", src] => src.toNat?.map Op.clone
-  | ["R", src, mods] => do
-    let src ← src.toNat?
-    let mods ← (if mods = "-" then some [] else allSome ((mods.splitOn "&").map parseMod?))
-    pure (Op.reform src mods)
-  | ["M", tgt, m] => do pure (Op.modify (← tgt.toNat?) (← parseMod? m))
-  | _ => none
-
-def parseOps? (s : String) : Option (List Op) :=
-  if s = "-" then some [] else allSome ((s.splitOn "|").map parseOp?)
-
 def parseParams? (s : String) : Option ParamTree :=
   if s = "-" then some [] else
   allSome ((s.splitOn ";").map fun f =>
@@ -108,6 +97,39 @@ def parseParams? (s : String) : Option ParamTree :=
 
 def parseVars? (s : String) : Option (List ClassDef) :=
   if s = "-" then some [] else allSome ((s.splitOn ";").map parseClassDef?)
+
+def parseReform? (s : String) : Option (String × List Mod) :=
+  match s.splitOn "$" with
+  | [name, mods] => do
+    if name = "" then none
+    let mods ← (if mods = "-" then some [] else allSome ((mods.splitOn "&").map parseMod?))
+    pure (name, mods)
+  | _ => none
+
+def parseExt? (s : String) : Option Ext :=
+  match s.splitOn "$" with
+  | [name, cds, ps] => do
+    if name = "" then none
+    pure { name := name, vars := (← parseVars? cds), params := (← parseParams? ps) }
+  | _ => none
+
+def parseOp? (s : String) : Option Op :=
+  match s.splitOn "!" with
+  | ["C", src] => src.toNat?.map Op.clone
+  | ["R", src, mods] => do
+    let src ← src.toNat?
+    let mods ← (if mods = "-" then some [] else allSome ((mods.splitOn "&").map parseMod?))
+    pure (Op.reform src mods)
+  | ["M", tgt, m] => do pure (Op.modify (← tgt.toNat?) (← parseMod? m))
+  | ["T", src, rs, es] => do
+    let src ← src.toNat?
+    let rs ← (if rs = "-" then some [] else allSome ((rs.splitOn "%").map parseReform?))
+    let es ← (if es = "-" then some [] else allSome ((es.splitOn "%").map parseExt?))
+    pure (Op.testRunner src rs es)
+  | _ => none
+
+def parseOps? (s : String) : Option (List Op) :=
+  if s = "-" then some [] else allSome ((s.splitOn "|").map parseOp?)
 
 def parseQueries? (s : String) : Option (List Int) :=
   allSome ((s.splitOn ",").map (·.toInt?))
